@@ -44,13 +44,26 @@ class Result:
         self.samples = []
         self.classes = set()
         self.counters = collections.Counter()
+        self.sig_counts = collections.Counter()
         self.caps = []
         self.extra = {}
 
+    KEEP_PER_SIG = 3
+
     def violation(self, sig, detail, case, cost=0):
-        self.violations.append(
-            {"sig": sig, "detail": detail, "case": case, "cost": cost}
-        )
+        """record a violation; per signature only the KEEP_PER_SIG cheapest
+        cases are kept (the rest are counted), so that a frequent known
+        finding cannot swamp the result channel"""
+        self.sig_counts[sig] += 1
+        mine = [v for v in self.violations if v["sig"] == sig] if self.sig_counts[sig] > self.KEEP_PER_SIG else None
+        v = {"sig": sig, "detail": detail, "case": case, "cost": cost}
+        if mine is None:
+            self.violations.append(v)
+            return
+        worst = max(mine, key=lambda x: x["cost"])
+        if cost < worst["cost"]:
+            self.violations.remove(worst)
+            self.violations.append(v)
 
     def sample(self, s, limit=3):
         if len(self.samples) < limit:
@@ -63,7 +76,16 @@ class Result:
         self.nontrivial |= other.nontrivial
         self.outcomes.update(other.outcomes)
         self.results |= other.results
-        self.violations.extend(other.violations)
+        self.sig_counts.update(other.sig_counts)
+        for v in other.violations:
+            mine = [x for x in self.violations if x["sig"] == v["sig"]]
+            if len(mine) < self.KEEP_PER_SIG:
+                self.violations.append(v)
+            else:
+                worst = max(mine, key=lambda x: x["cost"])
+                if v["cost"] < worst["cost"]:
+                    self.violations.remove(worst)
+                    self.violations.append(v)
         for s in other.samples:
             if len(self.samples) < 12:
                 self.samples.append(s)
@@ -252,9 +274,10 @@ def main(argv=None):
             for ks in known_seen:
                 if ks["id"] == hit["id"]:
                     ks["exploration_hits"] += 1
+                    ks.setdefault("signatures", {})[v["sig"]] = res.sig_counts.get(v["sig"], 1)
                     break
             else:
-                known_seen.append({"id": hit["id"], "exploration_hits": 1})
+                known_seen.append({"id": hit["id"], "exploration_hits": 1, "signatures": {v["sig"]: res.sig_counts.get(v["sig"], 1)}})
                 print(
                     "KNOWN-FINDING: property=%s %s: %s" % (prop.ID, hit["id"], hit["what"])
                 )
@@ -289,7 +312,7 @@ def main(argv=None):
                     "sig": sig,
                     "detail": v["detail"],
                     "case": v["case"],
-                    "occurrences": len(vs),
+                    "occurrences": res.sig_counts.get(sig, len(vs)),
                     "tier": tier,
                     "seed": seed,
                 },
@@ -297,7 +320,7 @@ def main(argv=None):
                 indent=1,
                 default=str,
             )
-        lines.append((path, sig, v["detail"], len(vs)))
+        lines.append((path, sig, v["detail"], res.sig_counts.get(sig, len(vs))))
 
     wall = time.time() - t0
     res.counters["violation_classes"] = nviol
